@@ -3,7 +3,8 @@
    A = the abstract book of Abs.v; [holds] = the monitor of Spec.v that is run on
    the implementation's traces; m_* = the model of pstoremem; d_* = the model of pstoreds. *)
 From Coq Require Import List ZArith Bool.
-From Verif Require Import lib.Wire gen.Consts_c09 c09.Abs c09.Model_mem c09.Model_ds c09.Spec c09.Proofs_mem c09.Proofs_ds c09.Proofs.
+From Verif Require Import lib.Wire gen.Consts_c09 c09.Abs c09.Model_mem c09.Model_ds c09.Spec c09.Proofs_mem c09.Proofs_ds c09.Proofs
+  c09.Proofs_dsr_w c09.Proofs_dsr.
 Import ListNotations.
 Local Open Scope Z_scope.
 
@@ -87,6 +88,73 @@ Theorem c09_ds_expired_never_returned : forall look ops p,
 Proof. exact ds0_addrs_live. Qed.
 Print Assumptions c09_ds_expired_never_returned.
 
+(* ---- datastore-backed book: refinement, for EVERY history of the op language (close/reopen included),
+   every cache size, both GC modes (look = 0: full purge; look > 0: lookahead window) ------------------
+   Hypothesis [ds_ok 0 ops] (decidable on the history; Proofs_dsr.v), each clause forced by a witness below:
+     - every clock advance is a non-negative whole number of seconds and the clock stays one second below
+       ConnectedAddrTTL (pstoreds keeps expiries as unix seconds);
+     - every TTL given to AddAddrs / SetAddrs / UpdateAddrs(new) / ConsumePeerRecord is <= 0, or whole
+       seconds, or >= ConnectedAddrTTL;
+     - an AddAddrs / SetAddrs batch with a positive TTL, and every ConsumePeerRecord batch, names no
+       transport address twice (setAddrs appends one entry per occurrence of a new address);
+     - sequence numbers are >= 0 (uint64);
+   and the lookahead interval is >= 0.
+   Observational sense (trace_refines_ds): every answer EQUALS the abstract book's (ConsumePeerRecord
+   result, GetPeerRecord, the stored-entry and signed-record counts reported after GC); Addrs is the same
+   set listed without repetition (a permutation: pstoreds keeps a record sorted by expiry);
+   PeersWithAddrs lists at least the abstract book's peers (a peer whose addresses all expired and whose
+   record has been neither loaded nor collected since is still listed: the slack the property allows). *)
+Theorem c09_ds_refines_spec : forall cached look ops, 0 <= look -> ds_ok 0 ops = true ->
+  trace_refines_ds (a_trace a_init ops) (d_trace (d_init cached look) ops).
+Proof. exact ds_refines_l. Qed.
+Print Assumptions c09_ds_refines_spec.
+
+(* HEADLINE (datastore-backed book): the monitor that is run on the implementation accepts every trace
+   of the model of pstoreds *)
+Theorem c09_ds_trace_holds : forall cached look ops, 0 <= look -> ds_ok 0 ops = true ->
+  holds (d_trace (d_init cached look) ops) = true.
+Proof. exact ds_holds_l. Qed.
+Print Assumptions c09_ds_trace_holds.
+
+(* the in-memory and the datastore-backed book give the same answers on every history ([ds_ok] implies
+   [clock_ok]): equal values and GC counts, Addrs equal as sets without repetition; PeersWithAddrs: both
+   list every peer with a live address (between expiry and collection they keep different expired peers
+   listed: witness [wit_peers_slack]) *)
+Theorem c09_mem_ds_equivalent : forall cached look ops, 0 <= look -> ds_ok 0 ops = true ->
+  traces_agree (a_trace a_init ops) (m_trace m_init ops) (d_trace (d_init cached look) ops).
+Proof. exact mem_ds_equivalent_l. Qed.
+Print Assumptions c09_mem_ds_equivalent.
+
+Theorem c09_ds_ok_implies_clock_ok : forall now ops, ds_ok now ops = true -> clock_ok now ops = true.
+Proof. exact ds_ok_clock. Qed.
+Print Assumptions c09_ds_ok_implies_clock_ok.
+
+(* each clause of the hypothesis is needed: a sub-second TTL (pstoreds rounds the expiry down and answers
+   [] where the abstract book answers [1]); a batch naming a new address twice (pstoreds stores and
+   returns it twice, and the monitor rejects the GC count); a negative lookahead interval (expired
+   entries stay in the datastore).  And the PeersWithAddrs slack is real: after the same history
+   pstoremem still lists the expired peer, pstoreds does not *)
+Theorem c09_ds_hypotheses_needed :
+  ds_ok 0 wit_subsecond = false /\
+  map snd (a_trace a_init wit_subsecond) = [ONone; ONone; OList [1]] /\
+  map snd (d_trace (d_init false 0) wit_subsecond) = [ONone; ONone; OList []] /\
+  ds_ok 0 wit_dup_batch = false /\
+  map snd (a_trace a_init wit_dup_batch) = [ONone; OList [1]; OSizes 1 0 0] /\
+  map snd (d_trace (d_init false 0) wit_dup_batch) = [ONone; OList [1; 1]; OSizes 2 0 0] /\
+  holds (d_trace (d_init false 0) wit_dup_batch) = false /\
+  ds_ok 0 wit_peers_slack = true /\
+  map snd (m_trace m_init wit_peers_slack) = [ONone; ONone; OList []; OList [1]] /\
+  map snd (d_trace (d_init false 0) wit_peers_slack) = [ONone; ONone; OList []; OList []].
+Proof. exact ds_hypotheses_needed_l. Qed.
+Print Assumptions c09_ds_hypotheses_needed.
+
+Theorem c09_ds_lookahead_nonnegative_needed :
+  ds_ok 0 wit_neg_look = true /\
+  map snd (a_trace a_init wit_neg_look) = [ONone; ONone; OSizes 0 0 0] /\
+  map snd (d_trace (d_init false (s_ (-5))) wit_neg_look) = [ONone; ONone; OSizes 1 0 0].
+Proof. exact ds_neg_look_l. Qed.
+Print Assumptions c09_ds_lookahead_nonnegative_needed.
+
 (* the two repaired defects (DESIGN 9 items 1 and 2) are absent from both models *)
 Theorem c09_repaired_defects_absent :
   holds (m_trace m_init wit_fixed1) = true /\ holds (d_trace (d_init true 0) wit_fixed1) = true /\
@@ -130,6 +198,14 @@ Example c09_hypothesis_satisfiable : clock_ok 0 full_example = true /\
   [OVal 1; ONone; ONone; ONone; OList [1; 2]; OList []; ONone; OList []; OSizes 2 1 2; OList [1];
    ONone; OVal 0; ONone; OVal 0; OVal 1; OVal 3; ONone; OVal 0; ONone; ONone].
 Proof. exact full_example_l. Qed.
+
+(* the ds hypothesis holds on a history that exercises every operation (sub-zero UpdateAddrs TTL,
+   /p2p suffixes, connected -> finite class transition, reopen), here with cache and lookahead GC *)
+Example c09_ds_hypothesis_satisfiable : ds_ok 0 full_example = true /\
+  map snd (d_trace (d_init true (s_ 30)) full_example) =
+  [OVal 1; ONone; ONone; ONone; OList [1; 2]; OList []; ONone; OList []; OSizes 2 1 0; OList [1];
+   ONone; OVal 0; ONone; OVal 0; OVal 1; OVal 3; ONone; OVal 0; ONone; ONone].
+Proof. exact ds_example_l. Qed.
 
 Example c09_monitor_rejects_bad_traces :
   holds [(OAdd 1 (s_ 120) [(1, 0)], ONone); (OAdvance (s_ 120), ONone); (OAddrs 1, OList [1])] = false /\
